@@ -307,6 +307,10 @@ def run(ctx):
             ctx.cls(cls)
 
         if ctx.shard == 0:
+            # characters whose lower() / upper() / casefold() has another length (an offset computed on a case-mapped copy would be shifted)
+            for u in ("http://example.com/İstanbul/?u=a/path", "http://example.com/İ?url=http%3A%2F%2Fb.org%2Fp", "http://İ.example.com/r?next=/home", "http://a.com/ß/ﬁ?URL=https%3A%2F%2Fb.org%2Fq",
+                      "http://a.com/?x=İİİ&url=http%3A%2F%2Fb.org%2FİX", "İİ.cdn.ampproject.org/c/s/b.org/p", "http://a.com/ǰ?u=/ŉ/x"):
+                do(u, "directed-case-mapping-length", "directed")
             for u in AMP:
                 do(u, "directed", "directed")
                 if not PROTO_RE.match(u) and "=/" in u:
